@@ -85,6 +85,16 @@ CLAIMED = {
              "diagram k under every worker schedule. Exploration.",
         note="The landscaper has no scheduling nondeterminism: simulation contributes interleaved histories and the "
              "reference twin; outputs compared rel 1e-9."),
+    "C09": dict(
+        design="4/C09", engine="history",
+        technique="deterministic simulation of operation histories over a shared pool of landscape objects (results fed "
+                  "back as operands, rejected operations, deferred computation firing inside operations, replays), each "
+                  "step compared pointwise with a definition-level reference model and every pool object re-observed",
+        text="No scheduling nondeterminism exists here; the search is over shared-operand histories of + - neg * / "
+             "snap_pl lc_approx average_approx on exact and grid landscapes incl. compute=False objects and degree/grid "
+             "mismatches. Result == pointwise definition at all breakpoints/midpoints/outside points and every depth; "
+             "operands and bystanders unchanged after successful and rejected operations. Exploration.",
+        note="Models are captured from constructor output; tolerance 1e-9*value scale + 1e-11*abscissa scale."),
 }
 
 NOT_APPLICABLE = {
